@@ -111,6 +111,26 @@ Theorem C10_record_times : forall pos par m dt n i y recs,
 Proof. exact spec_recs_times. Qed.
 Print Assumptions C10_record_times.
 
+(* ------------------------------------------------------------------------------------------------------------
+   parser._preprocess_dde_syntax on token lists: a call f(t - d) whose delay d is non-empty and contains no ')' becomes
+   past(f, d) unless f is a known function name, in which case it is left exactly as it was. *)
+Theorem C10_rewrite_call : forall t_id past_id excluded fuel f d0 d rest,
+  forallb (fun a => negb (is_rp a)) (d0 :: d) = true ->
+  rewrite_fuel t_id past_id excluded (S fuel) (TId f :: TLp :: TId t_id :: TMinus :: (d0 :: d) ++ TRp :: rest) =
+  if excluded f
+  then TId f :: TLp :: TId t_id :: TMinus :: (d0 :: d) ++ TRp :: rewrite_fuel t_id past_id excluded fuel rest
+  else TId past_id :: TLp :: TId f :: TComma :: (d0 :: d) ++ TRp :: rewrite_fuel t_id past_id excluded fuel rest.
+Proof. exact rewrite_call. Qed.
+Print Assumptions C10_rewrite_call.
+
+(* x(t-d) + sin(t-c) with identifiers t=0, past=1, x=2, sin=3, d=4, c=5 and sin excluded *)
+Example C10_rewrite_example :
+  rewrite 0 1 (fun f => (f =? 3)%nat)
+    [TId 2; TLp; TId 0; TMinus; TId 4; TRp; TOther 0; TId 3; TLp; TId 0; TMinus; TId 5; TRp] =
+    [TId 1; TLp; TId 2; TComma; TId 4; TRp; TOther 0; TId 3; TLp; TId 0; TMinus; TId 5; TRp].
+Proof. vm_compute. reflexivity. Qed.
+Print Assumptions C10_rewrite_example.
+
 (* non-vacuity: x' = -x + 2*z(t-1/2)*z(t-1/4) + v(t-d0), z' = x, v' = z with the delayed variables in slots 1 and 2,
    two delays on z, a parameter delay, fixed step 1/8 at step 8 (t = 1), hist = (10+t, 20+2t, 30+4t^2), d0 = 3/4:
    guards hold and the function returns -1 + 2*21*(43/2) + (30+4/16) = 3729/4 *)
